@@ -139,78 +139,134 @@ func runC17(c *Ctx) {
 	}
 	fn := core.FuncName(rm)
 	nrep := 0
-	for _, b := range rm.Blocks {
-		for _, in := range b.Instrs {
-			// no append / reslice of hop lists
-			if call, ok := in.(*ssa.Call); ok {
-				if bi, ok := call.Common().Value.(*ssa.Builtin); ok && (bi.Name() == "append" || bi.Name() == "delete") {
-					R.Fail("R17.2", fn+"#no-append", call.Pos(), fn, "the redaction pass appends to / deletes from a slice: hop count or positions may change")
+	// the pass may be split over helpers (a per-run method, a placeholder constructor): every module function reached from it is examined
+	var cands []*ssa.Function
+	for _, g := range ModReach(c.P, rm) {
+		if g == rm || touchesHops(g) {
+			cands = append(cands, g)
+		}
+	}
+	for _, g := range cands {
+		gfn := core.FuncName(g)
+		if g != rm {
+			// a helper that works on one run must be applied to every run: called from the pass inside a loop, on the loop's own element
+			applied := false
+			for _, b := range rm.Blocks {
+				for _, in := range b.Instrs {
+					if call, ok := in.(*ssa.Call); ok && call.Common().StaticCallee() == g && len(call.Common().Args) > 0 && inLoop(b) {
+						for _, pa := range firstPath(rm, b) {
+							t := core.NewEnv(c.P, pa).Term(call.Common().Args[0]).String()
+							if strings.Contains(t, ".Runs[") && strings.Contains(t, "loopphi") {
+								applied = true
+							}
+						}
+					}
 				}
 			}
-			st, ok := in.(*ssa.Store)
-			if !ok {
-				continue
-			}
-			al, ok := st.Val.(*ssa.Alloc)
-			if !ok || !isNamed(al.Type(), core.ModulePath+"/result", "TracerouteHop") {
-				// any other store into the document
-				if root, _ := addrRootFields(st.Addr); root == ssa.Value(rm.Params[0]) {
-					R.Fail("R17.2", fn+"#other-store", st.Pos(), fn, "the redaction pass writes something other than a placeholder hop into the document")
+			R.Check(applied, "R17.3", gfn+"#applied-to-every-run", g.Pos(), gfn, "the per-run helper is called from the pass for the element of its loop over runs", "the helper that redacts one run is not called from the pass inside a loop over the runs on that loop's own element: some runs would keep their private hops")
+		}
+		for _, b := range g.Blocks {
+			for _, in := range b.Instrs {
+				// no append / reslice of hop lists
+				if call, ok := in.(*ssa.Call); ok {
+					if bi, ok := call.Common().Value.(*ssa.Builtin); ok && (bi.Name() == "append" || bi.Name() == "delete") {
+						R.Fail("R17.2", gfn+"#no-append", call.Pos(), gfn, "the redaction pass appends to / deletes from a slice: hop count or positions may change")
+					}
 				}
-				continue
-			}
-			nrep++
-			paths, _ := core.EnumPaths(rm, b, 2000)
-			for _, pa := range paths {
-				env := core.NewEnv(c.P, pa)
-				atoms := env.Atoms()
-				if !core.Feasible(atoms) {
+				st, ok := in.(*ssa.Store)
+				if !ok {
 					continue
 				}
-				slot := env.Term(st.Addr)
-				ri, hj := hopIndex(slot)
-				// placeholder fields
-				stt := al.Type().Underlying().(*types.Pointer).Elem().Underlying().(*types.Struct)
-				var extra []string
-				ttlOK := false
-				for i := 0; i < stt.NumFields(); i++ {
-					fv := env.LoadField(al, stt.Field(i).Name(), st, stt.Field(i).Type())
-					if fv.Op == "zero" {
-						continue
-					}
-					if stt.Field(i).Name() == "TTL" {
-						si, sj := hopIndex(fv)
-						ttlOK = fv.Op == "field" && fv.Name == "TTL" && si == ri && sj == hj && ri != ""
-						if !ttlOK {
-							extra = append(extra, "TTL="+fv.String())
-						}
-						continue
-					}
-					extra = append(extra, stt.Field(i).Name()+"="+fv.String())
-				}
-				R.Check(ttlOK && len(extra) == 0, "R17.2", fn+"#placeholder", st.Pos(), fn, "placeholder carries only the replaced hop's TTL, stored at that hop's own run/hop index", "placeholder is not TTL-only at the hop's own index: "+strings.Join(extra, ", ")+" (slot "+slot.String()+")")
-				// R17.3 predicate: the only non-loop-control atom is IsPrivate(hop.IPAddress) on the same hop
-				var data []string
-				predOK := false
-				for _, a := range atoms {
-					nn := a.Norm()
-					s := nn.Cond
-					if s.Op == "binop" && (s.Name == "<" || s.Name == "<=") && (s.Args[0].Op == "loopphi" || s.Args[0].Op == "binop" && s.Args[0].Args[0].Op == "loopphi") {
-						continue // range loop control
-					}
-					if s.Op == "extract" && s.Args[0].Op == "next" {
-						continue
-					}
-					data = append(data, a.String())
-					if s.Op == "call" && strings.HasSuffix(s.Name, "(net.IP).IsPrivate") && nn.Sign && len(s.Args) == 1 {
-						ipt := s.Args[0]
-						pi, pj := hopIndex(ipt)
-						if ipt.Op == "field" && ipt.Name == "IPAddress" && pi == ri && pj == hj {
-							predOK = true
+				al, ok := st.Val.(*ssa.Alloc)
+				var ctorArgs map[string]ssa.Value // placeholder built by a straight-line constructor: its parameters → the call's arguments
+				var ctor *ssa.Function
+				if call, isCall := st.Val.(*ssa.Call); isCall && !ok {
+					if k := call.Common().StaticCallee(); k != nil && core.InModule(k) && len(k.Blocks) == 1 {
+						if ret, isRet := k.Blocks[0].Instrs[len(k.Blocks[0].Instrs)-1].(*ssa.Return); isRet && len(ret.Results) == 1 {
+							if al2, isAl := ret.Results[0].(*ssa.Alloc); isAl && isNamed(al2.Type(), core.ModulePath+"/result", "TracerouteHop") {
+								al, ok, ctor = al2, true, k
+								ctorArgs = map[string]ssa.Value{}
+								for i, pa := range k.Params {
+									ctorArgs[pa.Name()] = call.Common().Args[i]
+								}
+							}
 						}
 					}
 				}
-				R.Check(predOK && len(data) == 1, "R17.3", fn+"#predicate", st.Pos(), fn, "replacement depends on exactly IsPrivate(hop.IPAddress) of the same hop", "replacement is conditioned on ["+strings.Join(data, " ∧ ")+"]: it must depend on IsPrivate of the hop's own address and nothing else")
+				if !ok || !isNamed(al.Type(), core.ModulePath+"/result", "TracerouteHop") {
+					// any other store into the document
+					if root, _ := addrRootFields(st.Addr); len(g.Params) > 0 && root == ssa.Value(g.Params[0]) {
+						R.Fail("R17.2", gfn+"#other-store", st.Pos(), gfn, "the redaction pass writes something other than a placeholder hop into the document")
+					}
+					continue
+				}
+				nrep++
+				paths, _ := core.EnumPaths(g, b, 2000)
+				for _, pa := range paths {
+					env := core.NewEnv(c.P, pa)
+					atoms := env.Atoms()
+					if !core.Feasible(atoms) {
+						continue
+					}
+					slot := env.Term(st.Addr)
+					ri, hj := hopIndexIn(slot, g != rm)
+					// placeholder fields
+					stt := al.Type().Underlying().(*types.Pointer).Elem().Underlying().(*types.Struct)
+					var extra []string
+					ttlOK := false
+					for i := 0; i < stt.NumFields(); i++ {
+						var fv *core.Term
+						if ctor == nil {
+							fv = env.LoadField(al, stt.Field(i).Name(), st, stt.Field(i).Type())
+						} else {
+							kenv := core.NewEnv(c.P, core.NewPath(ctor, ctor.Blocks[:1]))
+							last := ctor.Blocks[0].Instrs[len(ctor.Blocks[0].Instrs)-1]
+							fv = kenv.LoadField(al, stt.Field(i).Name(), last, stt.Field(i).Type()).Subst(func(x *core.Term) *core.Term {
+								if x.Op == "param" {
+									if a, ok := ctorArgs[x.Name]; ok {
+										return env.Term(a)
+									}
+								}
+								return nil
+							})
+						}
+						if fv.Op == "zero" {
+							continue
+						}
+						if stt.Field(i).Name() == "TTL" {
+							si, sj := hopIndexIn(fv, g != rm)
+							ttlOK = fv.Op == "field" && fv.Name == "TTL" && si == ri && sj == hj && ri != ""
+							if !ttlOK {
+								extra = append(extra, "TTL="+fv.String())
+							}
+							continue
+						}
+						extra = append(extra, stt.Field(i).Name()+"="+fv.String())
+					}
+					R.Check(ttlOK && len(extra) == 0, "R17.2", gfn+"#placeholder", st.Pos(), gfn, "placeholder carries only the replaced hop's TTL, stored at that hop's own run/hop index", "placeholder is not TTL-only at the hop's own index: "+strings.Join(extra, ", ")+" (slot "+slot.String()+")")
+					// R17.3 predicate: the only non-loop-control atom is IsPrivate(hop.IPAddress) on the same hop
+					var data []string
+					predOK := false
+					for _, a := range atoms {
+						nn := a.Norm()
+						s := nn.Cond
+						if s.Op == "binop" && (s.Name == "<" || s.Name == "<=") && (s.Args[0].Op == "loopphi" || s.Args[0].Op == "binop" && s.Args[0].Args[0].Op == "loopphi") {
+							continue // range loop control
+						}
+						if s.Op == "extract" && s.Args[0].Op == "next" {
+							continue
+						}
+						data = append(data, a.String())
+						if s.Op == "call" && strings.HasSuffix(s.Name, "(net.IP).IsPrivate") && nn.Sign && len(s.Args) == 1 {
+							ipt := s.Args[0]
+							pi, pj := hopIndexIn(ipt, g != rm)
+							if ipt.Op == "field" && ipt.Name == "IPAddress" && pi == ri && pj == hj {
+								predOK = true
+							}
+						}
+					}
+					R.Check(predOK && len(data) == 1, "R17.3", gfn+"#predicate", st.Pos(), gfn, "replacement depends on exactly IsPrivate(hop.IPAddress) of the same hop", "replacement is conditioned on ["+strings.Join(data, " ∧ ")+"]: it must depend on IsPrivate of the hop's own address and nothing else")
+				}
 			}
 		}
 	}
@@ -219,26 +275,31 @@ func runC17(c *Ctx) {
 		cleared := map[string]bool{}
 		var hopT *types.Struct
 		var pos token.Pos
-		for _, b := range rm.Blocks {
-			for _, in := range b.Instrs {
-				st, ok := in.(*ssa.Store)
-				if !ok {
-					continue
-				}
-				fa, ok := st.Addr.(*ssa.FieldAddr)
-				if !ok || !isNamed(fa.X.Type(), core.ModulePath+"/result", "TracerouteHop") {
-					continue
-				}
-				hopT = fa.X.Type().Underlying().(*types.Pointer).Elem().Underlying().(*types.Struct)
-				pos = st.Pos()
-				zero := false
-				if cst, ok := st.Val.(*ssa.Const); ok {
-					zero = cst.Value == nil || cst.Value.ExactString() == "0" || cst.Value.ExactString() == "false" || cst.Value.ExactString() == "\"\""
-				}
-				if zero {
-					cleared[core.FieldName(fa)] = true
-				} else if core.FieldName(fa) != "TTL" {
-					R.Fail("R17.2", fn+"#in-place["+core.FieldName(fa)+"]", st.Pos(), fn, "redaction stores a non-zero value into "+core.FieldName(fa)+" of a private hop")
+		for _, g := range cands {
+			for _, b := range g.Blocks {
+				for _, in := range b.Instrs {
+					st, ok := in.(*ssa.Store)
+					if !ok {
+						continue
+					}
+					fa, ok := st.Addr.(*ssa.FieldAddr)
+					if !ok || !isNamed(fa.X.Type(), core.ModulePath+"/result", "TracerouteHop") {
+						continue
+					}
+					if _, fresh := fa.X.(*ssa.Alloc); fresh {
+						continue // initialising a fresh placeholder, not scrubbing
+					}
+					hopT = fa.X.Type().Underlying().(*types.Pointer).Elem().Underlying().(*types.Struct)
+					pos = st.Pos()
+					zero := false
+					if cst, ok := st.Val.(*ssa.Const); ok {
+						zero = cst.Value == nil || cst.Value.ExactString() == "0" || cst.Value.ExactString() == "false" || cst.Value.ExactString() == "\"\""
+					}
+					if zero {
+						cleared[core.FieldName(fa)] = true
+					} else if core.FieldName(fa) != "TTL" {
+						R.Fail("R17.2", fn+"#in-place["+core.FieldName(fa)+"]", st.Pos(), fn, "redaction stores a non-zero value into "+core.FieldName(fa)+" of a private hop")
+					}
 				}
 			}
 		}
@@ -258,27 +319,71 @@ func runC17(c *Ctx) {
 	R.Floor("R17.2:replacement-stores", nrep, 1)
 	// loops leave only through their headers (every run, every hop visited)
 	nloops := 0
-	for _, h := range rm.Blocks {
-		isHeader := false
-		for _, p := range h.Preds {
-			if h.Dominates(p) {
-				isHeader = true
+	for _, g := range cands {
+		for _, h := range g.Blocks {
+			isHeader := false
+			for _, p := range h.Preds {
+				if h.Dominates(p) {
+					isHeader = true
+				}
+			}
+			if !isHeader {
+				continue
+			}
+			nloops++
+			loop := loopOfHeader(h)
+			exits := 0
+			for b := range loop {
+				for _, s := range b.Succs {
+					if !loop[s] && b != h {
+						exits++
+					}
+				}
+			}
+			R.Check(exits == 0, "R17.3", fmt.Sprintf("%s#loop[b%d]", fn, h.Index), h.Instrs[0].Pos(), fn, "the range loop is left only when exhausted", "a range loop of the redaction pass can be left early: some hops would not be examined")
+		}
+	}
+	R.Floor("R17.3:loops", nloops, 2)
+}
+
+// hopIndexIn is hopIndex for a function that may work on one run only: there the hop list hangs off the function's own run
+// (one index), and the run part of the key is the term the list belongs to.
+func hopIndexIn(t *core.Term, perRun bool) (string, string) {
+	if ri, hj := hopIndex(t); ri != "" || !perRun {
+		return ri, hj
+	}
+	var owner, idx string
+	t.Walk(func(x *core.Term) bool {
+		if x.Op == "index" && len(x.Args) == 2 && idx == "" {
+			idx = x.Args[1].Key()
+			if f := x.Args[0]; f.Op == "field" && f.Name == "Hops" && len(f.Args) == 1 {
+				owner = "run:" + f.Args[0].Key()
 			}
 		}
-		if !isHeader {
-			continue
-		}
-		nloops++
-		loop := loopOfHeader(h)
-		exits := 0
-		for b := range loop {
-			for _, s := range b.Succs {
-				if !loop[s] && b != h {
-					exits++
+		return true
+	})
+	return owner, idx
+}
+
+// touchesHops: the function stores a hop into a hop list or writes fields of an existing hop.
+func touchesHops(g *ssa.Function) bool {
+	for _, b := range g.Blocks {
+		for _, in := range b.Instrs {
+			st, ok := in.(*ssa.Store)
+			if !ok {
+				continue
+			}
+			if ia, ok := st.Addr.(*ssa.IndexAddr); ok {
+				if pt, ok := ia.Type().Underlying().(*types.Pointer); ok && isNamed(pt.Elem(), core.ModulePath+"/result", "TracerouteHop") {
+					return true
+				}
+			}
+			if fa, ok := st.Addr.(*ssa.FieldAddr); ok && isNamed(fa.X.Type(), core.ModulePath+"/result", "TracerouteHop") {
+				if _, fresh := fa.X.(*ssa.Alloc); !fresh {
+					return true
 				}
 			}
 		}
-		R.Check(exits == 0, "R17.3", fmt.Sprintf("%s#loop[b%d]", fn, h.Index), h.Instrs[0].Pos(), fn, "the range loop is left only when exhausted", "a range loop of the redaction pass can be left early: some hops would not be examined")
 	}
-	R.Floor("R17.3:loops", nloops, 2)
+	return false
 }
